@@ -8,6 +8,11 @@
 #include <fstream>
 #include <iostream>
 #include <set>
+#include <malloc.h>
+#include <exception>
+#include <condition_variable>
+#include <mutex>
+#include <thread>
 #include <sys/mman.h>
 #include <sys/personality.h>
 #include <sys/syscall.h>
@@ -50,6 +55,8 @@ std::string Op::text() const
 		for(size_t k = 0; k < d.size(); k++)
 			t += (k ? "," : "") + hexf(d[k]);
 	}
+	if(this->t)
+		t += " t=" + std::to_string(this->t);
 	if(!s.empty())
 		t += " s=" + s;
 	return t;
@@ -86,6 +93,8 @@ bool Op::parse(const std::string& line, Op& out)
 				out.i.push_back(strtoll(item.c_str(), nullptr, 10));
 			else if(tok[0] == 'd')
 				out.d.push_back(strtod(item.c_str(), nullptr));
+			else if(tok[0] == 't')
+				out.t = (int) std::min(7l, std::max(0l, strtol(item.c_str(), nullptr, 10)));
 			else
 				return false;
 		}
@@ -295,6 +304,17 @@ static RunResult run_child(Engine& eng, const Plan& plan, const Opts& opts, bool
 		ctx.opts = &opts;
 		ctx.salt = plan.hash();
 		entropy_attach_log(&ctx.log);
+		// Heap-content fault: in half of the runs every block malloc hands out, and every block given back, is filled with a
+		// plan-chosen byte (glibc M_PERTURB; no effect under ASan, which poisons and fills on its own). Correct code never reads
+		// memory it did not write.
+		{
+			uint64_t hp = mix64(ctx.salt ^ 0x4EA9ull);
+			if(hp & 1)
+			{
+				mallopt(M_PERTURB, 1 + (int) ((hp >> 8) % 255));
+				g_shared->heap_perturbed = 1;
+			}
+		}
 		try
 		{
 			early_check(ctx);
@@ -454,7 +474,30 @@ struct Shrinker
 		while(progress && execs < budget)
 		{
 			progress = false;
+			std::vector<Plan> cands;
+			{
+				// generic candidate: everything issued from the main thread (if the failure survives, threads play no part)
+				Plan q	 = p;
+				bool any = false;
+				for(auto& o : q.ops)
+					if(o.t)
+					{
+						o.t = 0;
+						any = true;
+					}
+				if(any)
+					cands.push_back(q);
+			}
 			for(auto& q : eng.simplify(p))
+			{
+				// engines rebuild ops from their own specs: carry the caller thread over when the op list is unchanged in length
+				if(q.ops.size() == p.ops.size())
+					for(size_t k = 0; k < q.ops.size(); k++)
+						if(!q.ops[k].t)
+							q.ops[k].t = p.ops[k].t;
+				cands.push_back(q);
+			}
+			for(auto& q : cands)
 			{
 				if(execs >= budget)
 					break;
@@ -500,6 +543,95 @@ static void maybe_disable_aslr(char** argv)
 	setenv("SIM_NO_REEXEC", "1", 1);
 	execv("/proc/self/exe", argv);
 	// exec failed: carry on with ASLR
+}
+
+// ---------------------------------------------------------------- caller threads
+namespace
+{
+struct CallerThread
+{
+	std::thread th;
+	std::mutex m;
+	std::condition_variable cv;
+	const std::function<void()>* job = nullptr;
+	bool done						  = false;
+	std::exception_ptr err;
+	void loop()
+	{
+		std::unique_lock<std::mutex> lk(m);
+		for(;;)
+		{
+			cv.wait(lk, [this] { return job != nullptr; });
+			try
+			{
+				(*job)();
+			}
+			catch(...)
+			{
+				err = std::current_exception();
+			}
+			job	 = nullptr;
+			done = true;
+			cv.notify_all();
+		}
+	}
+};
+CallerThread* g_callers[8];
+int g_last_thread = 0;
+}	// namespace
+
+void Ctx::on_thread(int t, const std::function<void()>& body)
+{
+	if(t != g_last_thread)
+		sh->thread_switches++;
+	g_last_thread = t;
+	if(t <= 0 || t >= 8)
+	{
+		body();
+		return;
+	}
+	sh->thread_ops++;
+	CallerThread*& c = g_callers[t];
+	if(!c)
+	{
+		c	  = new CallerThread;
+		c->th = std::thread([c] { c->loop(); });
+		c->th.detach();
+	}
+	std::unique_lock<std::mutex> lk(c->m);
+	c->done = false;
+	c->err	= nullptr;
+	c->job	= &body;
+	c->cv.notify_all();
+	c->cv.wait(lk, [c] { return c->done; });
+	if(c->err)
+		std::rethrow_exception(c->err);
+}
+
+// Which caller thread issues which op: decided per run from the run seed, stored in the plan (Op::t), so that replay and
+// shrinking see it. Most runs stay on the main thread.
+void assign_threads(Plan& p, uint64_t run_seed)
+{
+	Rng r(mix64(run_seed ^ 0x7412EAD5ull));
+	if(!r.chance(0.3) || p.ops.size() < 2)
+		return;
+	int nthreads = (int) r.irange(2, 4);   // including the main thread
+	double sw	 = r.chance(0.5) ? 0.5 : 0.08;
+	int cur		 = (int) r.below((uint64_t) nthreads);
+	for(auto& o : p.ops)
+	{
+		if(r.chance(sw))
+			cur = (int) r.below((uint64_t) nthreads);
+		o.t = cur;
+	}
+}
+
+__attribute__((noinline)) void Ctx::dirty_stack(int byte)
+{
+	volatile unsigned char buf[48 * 1024];
+	for(size_t i = 0; i < sizeof buf; i++)
+		buf[i] = (unsigned char) byte;
+	__asm__ __volatile__("" ::"r"(buf) : "memory");
 }
 
 int sim_main(int argc, char** argv, std::vector<Engine*> engines)
@@ -585,6 +717,7 @@ int sim_main(int argc, char** argv, std::vector<Engine*> engines)
 	if(print_plan >= 0)
 	{
 		Plan p = eng->generate(run_seed(stream, (uint64_t) print_plan), opts);
+		assign_threads(p, run_seed(stream, (uint64_t) print_plan));
 		fputs(p.text().c_str(), stdout);
 		return 0;
 	}
@@ -617,13 +750,14 @@ int sim_main(int argc, char** argv, std::vector<Engine*> engines)
 	std::vector<double> metric_max(32, 0.0);
 	std::vector<uint8_t> states(MAX_STATES / 8, 0);
 	std::map<std::string, int> shrunk_per_class;
-	uint64_t total_ops = 0, total_events = 0, det_reruns = 0, det_mismatch = 0, nviol = 0, executed = 0, ambient_errno = 0, ambient_fpflags = 0, early_calls = 0;
+	uint64_t total_ops = 0, total_events = 0, det_reruns = 0, det_mismatch = 0, nviol = 0, executed = 0, ambient_errno = 0, ambient_fpflags = 0, early_calls = 0, dirty_stack = 0, heap_perturbed = 0, thread_ops = 0, thread_switches = 0;
 	int samples_emitted = 0;
 	Shared snap;
 	for(long i = first + worker; i < first + nruns; i += nworkers)
 	{
 		uint64_t rs = run_seed(stream, (uint64_t) i);
 		Plan plan	= eng->generate(rs, opts);
+		assign_threads(plan, rs);
 		RunResult r = run_child(*eng, plan, opts, false, &snap);
 		executed++;
 		total_ops += r.nops;
@@ -631,6 +765,10 @@ int sim_main(int argc, char** argv, std::vector<Engine*> engines)
 		ambient_errno += snap.ambient_errno;
 		ambient_fpflags += snap.ambient_fpflags;
 		early_calls += snap.early_calls;
+		dirty_stack += snap.dirty_stack;
+		heap_perturbed += snap.heap_perturbed;
+		thread_ops += snap.thread_ops;
+		thread_switches += snap.thread_switches;
 		for(int k = 0; k < MAX_PROBES; k++)
 		{
 			probe_sum[k] += snap.probes[k];
@@ -725,7 +863,7 @@ int sim_main(int argc, char** argv, std::vector<Engine*> engines)
 			sj += (first_state ? "" : ",") + std::to_string(id);
 			first_state = false;
 		}
-	printf("{\"t\":\"sum\",\"worker\":%ld,\"executed\":%llu,\"ops\":%llu,\"events\":%llu,\"violations\":%llu,\"det_reruns\":%llu,\"det_mismatches\":%llu,\"ambient_errno\":%llu,\"ambient_fpflags\":%llu,\"early_calls\":%llu,\"probes\":{%s},\"metrics\":{%s},\"states\":[%s]}\n", worker, (unsigned long long) executed, (unsigned long long) total_ops, (unsigned long long) total_events, (unsigned long long) nviol, (unsigned long long) det_reruns, (unsigned long long) det_mismatch, (unsigned long long) ambient_errno, (unsigned long long) ambient_fpflags, (unsigned long long) early_calls, pj.c_str(), mj.c_str(), sj.c_str());
+	printf("{\"t\":\"sum\",\"worker\":%ld,\"executed\":%llu,\"ops\":%llu,\"events\":%llu,\"violations\":%llu,\"det_reruns\":%llu,\"det_mismatches\":%llu,\"ambient_errno\":%llu,\"ambient_fpflags\":%llu,\"early_calls\":%llu,\"dirty_stack\":%llu,\"heap_perturbed\":%llu,\"thread_ops\":%llu,\"thread_switches\":%llu,\"probes\":{%s},\"metrics\":{%s},\"states\":[%s]}\n", worker, (unsigned long long) executed, (unsigned long long) total_ops, (unsigned long long) total_events, (unsigned long long) nviol, (unsigned long long) det_reruns, (unsigned long long) det_mismatch, (unsigned long long) ambient_errno, (unsigned long long) ambient_fpflags, (unsigned long long) early_calls, (unsigned long long) dirty_stack, (unsigned long long) heap_perturbed, (unsigned long long) thread_ops, (unsigned long long) thread_switches, pj.c_str(), mj.c_str(), sj.c_str());
 	return det_mismatch ? 2 : 0;
 }
 
